@@ -114,6 +114,23 @@ func errorEdgesLeaveBefore(r *core.Run, rule string, fn *core.Fn, attempt instrP
 	f := fn.SSA
 	p := r.P
 	atts := findInstrs(f, true, attempt)
+	// a same-package helper that performs the attempt and hands its failure back counts as
+	// the attempt at its call site ("extract method" tolerance, one level)
+	for _, g := range core.AllSSA(f) {
+		core.Instrs(g, func(in ssa.Instruction) {
+			c, ok := in.(*ssa.Call)
+			if !ok || attempt(in) {
+				return
+			}
+			h := p.ByObj[core.CalleeObj(c)]
+			if h == nil || h.SSA == nil || h.SSA == f || f.Pkg == nil || h.Pkg.PkgPath != f.Pkg.Pkg.Path() || core.ErrIndex(h.SSA) < 0 {
+				return
+			}
+			if propagatesFailure(p, h.SSA, attempt) {
+				atts = append(atts, in)
+			}
+		})
+	}
 	n := counter{}
 	cnt := 0
 	for _, a := range atts {
@@ -241,3 +258,56 @@ func followedBy(a ssa.Instruction, pred instrPred) bool {
 // sameValueFlow reports whether value b is value a or a pure projection of it through
 // loads of single-store cells (see canonVal).
 func sameValueFlow(a, b ssa.Value) bool { return canonVal(a) == canonVal(b) }
+
+// propagatesFailure: h performs at least one attempt (directly) and every return of h
+// that can follow a failed attempt hands back a non-nil error: the return's error result
+// is the attempt's own error value (possibly through a nil-preserving converter or a phi),
+// is known to be non-nil, or the return is only reached on the nil edge of a test of the
+// attempt's error.
+func propagatesFailure(p *core.Prog, h *ssa.Function, attempt instrPred) bool {
+	atts := findInstrs(h, false, attempt)
+	if len(atts) == 0 {
+		return false
+	}
+	pt := passThrough(p)
+	ei := core.ErrIndex(h)
+	for _, a := range atts {
+		call, ok := a.(*ssa.Call)
+		if !ok {
+			return false
+		}
+		var errVals []ssa.Value
+		if types.Identical(call.Type(), errType) {
+			errVals = append(errVals, call)
+		}
+		for _, ref := range *call.Referrers() {
+			if ex, ok := ref.(*ssa.Extract); ok && types.Identical(ex.Type(), errType) {
+				errVals = append(errVals, ex)
+			}
+		}
+		if len(errVals) == 0 {
+			return false
+		}
+		for _, ret := range core.Returns(h) {
+			if !reachesBlock(call.Block(), ret.Block()) {
+				continue
+			}
+			rv := core.ResultValue(ret, ei)
+			fine := core.ErrState(rv, ret.Block(), pt) == core.NonNil
+			for _, src := range errSources(p, rv) {
+				if src == call {
+					fine = true
+				}
+			}
+			for _, ev := range errVals {
+				if rv == ev || phiContains(rv, ev, map[ssa.Value]bool{}) || nilErrAt(ret.Block(), ev) {
+					fine = true
+				}
+			}
+			if !fine {
+				return false
+			}
+		}
+	}
+	return true
+}
